@@ -151,7 +151,7 @@ def theorem_names(path):
 def audit(ctx, theorem_files, extra_grep_files=()):
     """build the theorem modules, grep for forbidden constructs, `#print axioms` every theorem"""
     mods = [module_of(f) for f in theorem_files]
-    ok, log = lake_build(mods + ['driver'])
+    ok, log = lake_build(mods + ['driver_' + ctx.pid.lower()])
     ctx.proof['build_ok'] = ok
     ctx.proof['build_log'] = log[-4000:] if not ok else ''
     # grep (comments stripped) over the theorem files and everything they import from this project
@@ -215,15 +215,19 @@ def audit(ctx, theorem_files, extra_grep_files=()):
 
 _driver = None
 
-def driver_path():
-    return os.path.join(LEAN, '.lake', 'build', 'bin', 'driver')
+def driver_path(pid):
+    return os.path.join(LEAN, '.lake', 'build', 'bin', 'driver_' + pid.lower())
 
 
-def run_model(lines, timeout=3000):
-    """pipe operation lines through the compiled Lean driver, return the output lines"""
-    exe = driver_path()
+def run_model(lines, timeout=3000, pid=None):
+    """pipe operation lines (`<pid> <op> <args…>`) through the compiled Lean driver of that property, return the output lines"""
+    if pid is None:
+        pid = lines[0].split(' ')[0] if lines else 'C08'
+    exe = driver_path(pid)
+    if not lines:
+        return []
     if not os.path.exists(exe):
-        ok, log = lake_build(['driver'])
+        ok, log = lake_build(['driver_' + pid.lower()])
         if not ok:
             raise RuntimeError('driver build failed:\n' + log[-3000:])
     data = '\n'.join(lines) + '\n'
